@@ -20,7 +20,7 @@ type C09 struct{}
 
 func (C09) ID() string { return "C09" }
 func (C09) Rule() string {
-	return "rapid-generated trees (<=10 nodes; 1 in 4 whole-tree scenarios with a second scan root) x {fatal-on-fs-errors, size limit, inode limit equal to the fault-free visit count (1 in 3 scenarios without gitignore handling), gitignore, whole tree / requested paths, symlink reading} x 1-3 extractors; per tree the fault-free history is recorded and EVERY single fault (site = k-th occurrence of stat/open/readdir/fstat/read/readdirall on a path; kinds perm/notexist/eio, eio-partial for reads, and persistent variants in which every occurrence from the k-th on fails) is injected, plus every ordered pair (second site taken from the history of the run with the first fault; kinds perm,eio) when the fault-free history has <= 40 file-system operations (quick) / <= 90 (thorough); evaluation = one scan under one fault plan; non-trivial scenario = at least one fault fired AND at least one extraction lies outside its blast radius; distinct = distinct scenario JSON"
+	return "rapid-generated trees (<=10 nodes; 1 in 4 whole-tree scenarios with a second scan root; virtual roots or roots with a path of their own) x {fatal-on-fs-errors, size limit, inode limit equal to the fault-free visit count (1 in 3 scenarios without gitignore handling), gitignore, whole tree / requested paths, symlink reading} x 1-3 extractors; per tree the fault-free history is recorded and EVERY single fault (site = k-th occurrence of stat/open/readdir/fstat/read/readdirall on a path; kinds perm/notexist/eio, eio-partial for reads, and persistent variants in which every occurrence from the k-th on fails) is injected, plus every ordered pair (second site taken from the history of the run with the first fault; kinds perm,eio) when the fault-free history has <= 40 file-system operations (quick) / <= 90 (thorough); under every plan the size limit stays a hard bound (no regular file above it reaches an extractor); evaluation = one scan under one fault plan; non-trivial scenario = at least one fault fired AND at least one extraction lies outside its blast radius; distinct = distinct scenario JSON"
 }
 
 func (C09) Gen(rt *rapid.T, tier string) any {
